@@ -17,14 +17,28 @@ import (
 var eoaRe, scoreRe *regexp.Regexp
 
 type strIn struct {
-	S string `json:"s_hex"`
+	S   string `json:"s_hex"`
+	Pre int    `json:"pre"` // receiver state before the call: 0 zero value, 1 holds a contract address, 2 holds an EOA address
+}
+
+// receiver returns an Address value that was already used (addresses are reused in place by callers)
+func receiver(pre int) common.Address {
+	var a common.Address
+	switch pre {
+	case 1:
+		a.SetTypeAndID(true, []byte{0xc1, 0xc2, 0xc3, 0xc4, 0xc5, 0xc6, 0xc7, 0xc8, 0xc9, 0xca, 0xcb, 0xcc, 0xcd, 0xce, 0xcf, 0xd0, 0xd1, 0xd2, 0xd3, 0xd4})
+	case 2:
+		a.SetTypeAndID(false, []byte{0xe1, 0xe2, 0xe3, 0xe4, 0xe5, 0xe6, 0xe7, 0xe8, 0xe9, 0xea, 0xeb, 0xec, 0xed, 0xee, 0xef, 0xf0, 0xf1, 0xf2, 0xf3, 0xf4})
+	}
+	return a
 }
 type addrIn struct {
 	Contract bool   `json:"contract"`
 	ID       string `json:"id_hex"`
 }
 type bytesIn struct {
-	B string `json:"b_hex"`
+	B   string `json:"b_hex"`
+	Pre int    `json:"pre"`
 }
 
 func obs(a *common.Address, err error) string {
@@ -35,8 +49,8 @@ func obs(a *common.Address, err error) string {
 }
 
 // direct oracle for a candidate string: strict accept => canonical; accept set == regex set
-func oracleStr(s string) (string, string) {
-	var a common.Address
+func oracleStr(s string, pre int) (string, string) {
+	a := receiver(pre)
 	err := a.SetStringStrict(s)
 	re := eoaRe.MatchString(s) || scoreRe.MatchString(s)
 	msg := ""
@@ -69,12 +83,32 @@ func oracleAddr(contract bool, id []byte) (string, string) {
 	if err := d.SetString(s); err != nil || !bytes.Equal(d.Bytes(), a.Bytes()) {
 		msg = fmt.Sprintf("lenient parser does not return %q", s)
 	}
+	// receivers that held another address before (values are reused in place)
+	for pre := 1; pre <= 2; pre++ {
+		r1 := receiver(pre)
+		if err := r1.SetStringStrict(s); err != nil || !bytes.Equal(r1.Bytes(), a.Bytes()) || r1.String() != s {
+			msg = fmt.Sprintf("strict parser into a reused address value (pre-state %d) gives %x / %q for %q", pre, r1.Bytes(), r1.String(), s)
+		}
+		r2 := receiver(pre)
+		if err := r2.SetString(s); err != nil || !bytes.Equal(r2.Bytes(), a.Bytes()) {
+			msg = fmt.Sprintf("lenient parser into a reused address value (pre-state %d) gives %x for %q", pre, r2.Bytes(), s)
+		}
+		r3 := receiver(pre)
+		r3.Set(a)
+		if !bytes.Equal(r3.Bytes(), a.Bytes()) {
+			msg = fmt.Sprintf("Set into a reused address value (pre-state %d) gives %x, want %x", pre, r3.Bytes(), a.Bytes())
+		}
+		r4 := receiver(pre)
+		if err := r4.SetBytes(a.Bytes()); err != nil || !bytes.Equal(r4.Bytes(), a.Bytes()) {
+			msg = fmt.Sprintf("SetBytes into a reused address value (pre-state %d) gives %x, want %x", pre, r4.Bytes(), a.Bytes())
+		}
+	}
 	return fmt.Sprintf("(CAddr %s %s %s %s)", hxlib.CoqBool(contract), hxlib.CoqBytes(id),
 		hxlib.CoqBytes([]byte(s)), hxlib.CoqBytes(a.Bytes())), msg
 }
 
-func oracleBytes(b []byte) (string, string) {
-	var a common.Address
+func oracleBytes(b []byte, pre int) (string, string) {
+	a := receiver(pre)
 	err := a.SetBytes(b)
 	msg := ""
 	if err == nil && len(b) == common.AddressBytes && !bytes.Equal(a.Bytes(), b) {
@@ -163,8 +197,9 @@ func gen(c *hxlib.Ctx) {
 				s[j] = alphabet[r.Intn(len(alphabet))]
 			}
 		}
-		coq, msg := oracleStr(string(s))
-		c.Emit(hxlib.Case{Kind: kind, Coq: coq, Input: map[string]interface{}{"t": "str", "v": strIn{hex.EncodeToString(s)}},
+		pre := r.Intn(3)
+		coq, msg := oracleStr(string(s), pre)
+		c.Emit(hxlib.Case{Kind: kind, Coq: coq, Input: map[string]interface{}{"t": "str", "v": strIn{hex.EncodeToString(s), pre}},
 			Nontrivial: kind != "str-canonical" || true, OracleErr: msg})
 	}
 	// byte forms
@@ -175,8 +210,9 @@ func gen(c *hxlib.Ctx) {
 		if n > 0 && r.Intn(3) > 0 {
 			b[0] = byte(r.Intn(3))
 		}
-		coq, msg := oracleBytes(b)
-		c.Emit(hxlib.Case{Kind: fmt.Sprintf("bytes-%d", n), Coq: coq, Input: map[string]interface{}{"t": "bytes", "v": bytesIn{hex.EncodeToString(b)}},
+		pre := r.Intn(3)
+		coq, msg := oracleBytes(b, pre)
+		c.Emit(hxlib.Case{Kind: fmt.Sprintf("bytes-%d", n), Coq: coq, Input: map[string]interface{}{"t": "bytes", "v": bytesIn{hex.EncodeToString(b), pre}},
 			Nontrivial: n == 20 || n == 21, OracleErr: msg})
 	}
 	// canary: a wrong observation the model must flag
@@ -197,7 +233,7 @@ func replay(raw json.RawMessage) string {
 		var v strIn
 		json.Unmarshal(in.V, &v)
 		s, _ := hex.DecodeString(v.S)
-		_, msg := oracleStr(string(s))
+		_, msg := oracleStr(string(s), v.Pre)
 		return msg
 	case "addr":
 		var v addrIn
@@ -209,7 +245,7 @@ func replay(raw json.RawMessage) string {
 		var v bytesIn
 		json.Unmarshal(in.V, &v)
 		b, _ := hex.DecodeString(v.B)
-		_, msg := oracleBytes(b)
+		_, msg := oracleBytes(b, v.Pre)
 		return msg
 	}
 	return "unknown case type " + in.T
